@@ -26,6 +26,7 @@ let run_hm (ops : string list) : string =
   let keys : (int * int ref) list ref = ref [] in
   let klen k = try !(Stdlib.List.assoc k !keys) with Not_found -> -1 in
   let z0 = z_of_int 0 in
+  let saved : coq_Z option ref = ref None in
   let recs = Stdlib.List.map (fun tok ->
     let args = if String.length tok > 2 then Stdlib.List.map int_of_string (String.split_on_char ',' (String.sub tok 2 (String.length tok - 2))) else [] in
     let a i = Stdlib.List.nth args i in
@@ -43,6 +44,12 @@ let run_hm (ops : string list) : string =
                (if tok.[0] = 'v' then (Stdlib.List.assoc (a 0) !keys) := 0 else keys := Stdlib.List.remove_assoc (a 0) !keys);
                zs c ^ " " ^ zs v end
     | 'c' -> let (c, v) = Gen_HashMultiMap.coq_Clear false !cnt !ver z0 false in cnt := c; ver := v; keys := []; zs c ^ " " ^ zs v
+    | 'I' -> if klen (a 0) < 0 || a 1 >= klen (a 0) then "skip" else (saved := Some !ver; "it")
+    | 'U' -> (match !saved with
+              | None -> "skip"
+              | Some v -> (* the generated VersionKeeper::Check (exception mode): the counter lives at some non-null address *)
+                  (match Gen_VersionCheck.coq_Check_self (fun _ -> !ver) (z_of_int 4096) v with
+                   | GenPrelude.Ok _ -> "ok" | GenPrelude.Exn -> "throw" | _ -> "stuck"))
     | 'D' -> (* the moved-from object: mValueCount = 0 (move constructor), null crew; Clear must change nothing *)
              let (c, _) = Gen_HashMultiMap.coq_Clear true z0 z0 z0 false in zs c ^ " dead 1"
     | _ -> "?") ops in
@@ -52,5 +59,5 @@ let run_hm (ops : string list) : string =
 let () = iter_lines (fun line ->
   match words line with
   | ("gc" | "ms" | "gp" | "fi") :: _ as w -> print_endline (run_gen w)
-  | "hm" :: ops -> print_endline (run_hm ops)
+  | ("hm" | "hx") :: ops -> print_endline (run_hm ops)
   | _ -> print_endline "?")
